@@ -16,6 +16,7 @@ package xmlenc
 //@ go func rsaKeyOK(key interface{}) bool { k, ok := key.(*rsa.PrivateKey); return !ok || (k != nil && k.N != nil) }
 //@ go func certOK(c interface{}) bool { k, ok := c.(*x509.Certificate); return !ok || k != nil }
 //@ go func sameSlice(a, b []byte) bool
+//@ go func sameArray(a, b []byte) bool
 //@ go func keyIs(k interface{}, key []byte) bool { b, ok := k.([]byte); return ok && sameSlice(b, key) }
 //@ go func registered(alg string) bool { _, ok := decrypters[alg]; return ok }
 
@@ -94,10 +95,13 @@ package xmlenc
 //@ -- xmlenc padding stripped (with the padding lemma and CBC decrypt-after-encrypt = identity this is the round trip)
 //@ assert@call[C10,C08] field:xmlenc.CBC.cipher #1 (fn func([]byte) (cipher.Block, error), k []byte) uses keyBuf []byte keys_cipher_with_given_key:
 //@    sameSlice(k, keyBuf) && len(k) == e.keySize
-//@ assert@call[C10,C08] NewCBCDecrypter #1 (b cipher.Block, ivArg []byte) uses block cipher.Block, iv []byte, ciphertext []byte first_block_is_iv:
-//@    b == block && sameSlice(ivArg, iv) && len(iv) == b.BlockSize() && cap(iv) == cap(ciphertext)+len(iv)
-//@ assert@call[C10,C08] CryptBlocks #1 (mode cipher.BlockMode, dst []byte, src []byte) uses ciphertext []byte, plaintext []byte decrypts_all_after_iv:
-//@    sameSlice(src, ciphertext) && sameSlice(dst, plaintext) && len(dst) == len(src)
+//@ assert@call[C10,C08] NewCBCDecrypter #1 (b cipher.Block, ivArg []byte) uses block cipher.Block, iv []byte first_block_is_iv:
+//@    b == block && sameSlice(ivArg, iv) && len(iv) == b.BlockSize()
+//@ -- (what is decrypted starts where the IV ends, in the same array, and ends where the decoded cipher value ends - said
+//@ -- through capacities, so that it does not matter whether `ciphertext` names the whole value or what follows the IV)
+//@ assert@call[C10,C08] CryptBlocks #1 (mode cipher.BlockMode, dst []byte, src []byte) uses iv []byte, ciphertext []byte, plaintext []byte decrypts_all_after_iv:
+//@    sameArray(src, iv) && cap(iv) == cap(src)+len(iv) && sameArray(src, ciphertext) && cap(src)-len(src) == cap(ciphertext)-len(ciphertext) &&
+//@    sameSlice(dst, plaintext) && len(dst) == len(src)
 //@ assert@call[C10,C08] stripPadding #1 (buf []byte) uses plaintext []byte strips_padding_of_plaintext: sameSlice(buf, plaintext)
 //@ -- the other direction: once key, cipher and cipher value are in hand, the only cipher values turned away before
 //@ -- decryption are those that are not IV + whole blocks OF THIS CIPHER (8 bytes for 3DES, 16 for AES)
